@@ -69,3 +69,68 @@ let handle18 op args =
   | _ -> failwith ("conc18: unknown op " ^ op)
 
 let () = Util.register "conc18" handle18
+
+(* ---------------------------------------------------------------- conc19 *)
+let nats_of_csv l = if l = "" then [] else Stdlib.List.map (fun x -> nat_of_int (ios x)) (split ',' l)
+
+let handle19 op args =
+  match op with
+  | "init" ->
+    (* d:<recheck_data> b:<body_len> e:<tid>:<saw>... : observed calls of one init-once object *)
+    let d = ref false and b = ref 3 and evs = ref [] in
+    Stdlib.List.iter (fun tok ->
+      match split ':' tok with
+      | ["d"; x] -> d := (x = "1")
+      | ["b"; x] -> b := ios x
+      | ["n"; _] -> ()
+      | "o" :: _ -> ()
+      | ["e"; t; saw] -> evs := (nat_of_int (ios t), saw = "1") :: !evs
+      | _ -> failwith ("conc19 init: bad token " ^ tok)) args;
+    let c = { InitOnceModel.body_len = nat_of_int !b; recheck_data = !d } in
+    [if InitOnceModel.icheck_observed c (Stdlib.List.rev !evs) InitOnceModel.iinit then "ok" else "bad"]
+  | "isched" ->
+    (* model-only: d:.. b:.. n:<threads> s:<tid>... *)
+    let d = ref false and b = ref 3 and n = ref 0 and sched = ref [] in
+    Stdlib.List.iter (fun tok ->
+      match split ':' tok with
+      | ["d"; x] -> d := (x = "1")
+      | ["b"; x] -> b := ios x
+      | ["n"; x] -> n := ios x
+      | ["s"; t] -> sched := nat_of_int (ios t) :: !sched
+      | _ -> failwith ("conc19 isched: bad token " ^ tok)) args;
+    let c = { InitOnceModel.body_len = nat_of_int !b; recheck_data = !d } in
+    let threads = Stdlib.List.init !n nat_of_int in
+    (match InitOnceModel.irun_schedule c (Stdlib.List.rev !sched) InitOnceModel.iinit [] with
+     | None -> ["stuck"]
+     | Some (s, tr) ->
+       let ok1 = InitOnceModel.istate_ok c s threads in
+       let ok2 = (match InitOnceModel.irun_trace c tr InitOnceModel.iinit with
+                  | Some s2 -> InitOnceModel.istate_ok c s2 threads | None -> false) in
+       [if ok1 && ok2 then "ok" else "bad"])
+  | "reg" ->
+    (* r:<tid>:<own completed csv>:<seen csv>... : observed registry snapshots *)
+    let os = Stdlib.List.filter_map (fun tok ->
+      match split ':' tok with
+      | ["r"; _; pre; seen] -> Some (nats_of_csv pre, nats_of_csv seen)
+      | ["n"; _] -> None
+      | _ -> failwith ("conc19 reg: bad token " ^ tok)) args in
+    [if InitOnceModel.robs_ok os then "ok" else "bad"]
+  | "rsched" ->
+    (* model-only: n:<threads> k:<items per registration> s:<tid>:<reg id or L>... *)
+    let n = ref 0 and k = ref 2 and sched = ref [] in
+    Stdlib.List.iter (fun tok ->
+      match split ':' tok with
+      | ["n"; x] -> n := ios x
+      | ["k"; x] -> k := ios x
+      | ["s"; t; "L"] -> sched := (nat_of_int (ios t), None) :: !sched
+      | ["s"; t; r] -> sched := (nat_of_int (ios t), Some (nat_of_int (ios r))) :: !sched
+      | _ -> failwith ("conc19 rsched: bad token " ^ tok)) args;
+    let kk = !k in
+    let c = (fun r -> Stdlib.List.init kk (fun j -> nat_of_int (int_of_nat r * 10 + j))) in
+    let threads = Stdlib.List.init !n nat_of_int in
+    (match InitOnceModel.rrun_schedule c (Stdlib.List.rev !sched) InitOnceModel.rinit with
+     | None -> ["stuck"]
+     | Some s -> [if InitOnceModel.rstate_ok c s threads then "ok" else "bad"])
+  | _ -> failwith ("conc19: unknown op " ^ op)
+
+let () = Util.register "conc19" handle19
